@@ -139,6 +139,9 @@ def main(cmd, args):
                     if not ok:
                         print(f'selftest-sensitivity {sid}: replay on the changed tree exit {p2.returncode}, on the real tree exit '
                               f'{p3.returncode}: {p3.stdout.decode()[-300:] if p3.returncode else p2.stdout.decode()[-300:]}')
+                    if not ok and os.environ.get('SELFTEST_KEEP'):
+                        os.makedirs(os.environ['SELFTEST_KEEP'], exist_ok=True)
+                        shutil.copy(path, os.environ['SELFTEST_KEEP'])
                     os.remove(path)
                 if keep is not None:
                     open(ev, 'w').write(keep)
